@@ -17,7 +17,7 @@ def _codes():
     c[20] = ("model-import-definedness-differs-from-InitChain", "mismatch")
     c[50] = ("model-validate-differs-from-ValidateGenesis-on-malformed-document", "mismatch")
     c[60] = ("recomputed-provision-differs", "mismatch")
-    c[110] = ("initchain-from-export-fails", "monitor")
+    c[110] = ("export-of-reachable-state-not-importable", "monitor")
     return c
 
 
@@ -42,7 +42,7 @@ PROP = dict(
         "store iteration order is not modelled: pools, token pairs and CSRs are compared as sets",
         "fewer than 2^64-1 pools (no uint64 wrap-around of the pool sequence)",
         "the inflation provision computation does not overflow LegacyDec on the stored parameters (calc_guard); "
-        "without it InitGenesis panics - see import_without_guard_refuted",
+        "without it InitGenesis panics - import_without_guard_refuted, confirmed on the real code by the stream guard-overflow-params (known finding)",
         "genesis block time is not the zero time (then no stored epoch StartTime is the zero-time sentinel)",
     ],
 )
